@@ -27,6 +27,39 @@ def classify_sqlite_error(msg, dialect):
     return "other"
 
 
+def second_engine_agrees(sql, db, m, rows_primary, cols_primary):
+    """Execute the statement on the interpreter's own SQLite (a different version than the worker's pinned
+    one) and compare with the model the same way.  True only if that engine returns the same columns and the
+    model accepts its rows."""
+    try:
+        import sqlite3
+        if sqlite3.sqlite_version == "3.49.1":
+            return False            # not a second opinion
+        con = sqlite3.connect(":memory:")
+        try:
+            for stmt in grel.db_stmts(db):
+                con.executescript(stmt)
+            cur = con.execute(sql)
+            cols2 = [c[0] for c in cur.description]
+            rows2 = [tuple(r) for r in cur.fetchall()]
+        finally:
+            con.close()
+        if len(cols2) != len(cols_primary) or len(rows2) != len(rows_primary):
+            return False
+        width = len(m.cols)
+        if rows2 and len(rows2[0]) != width:
+            # the caller compared a projection of the primary rows (generated helper columns removed / prefix)
+            if len(rows_primary) and len(rows_primary[0]) == width and len(cols2) >= width:
+                rows2 = [r[:width] for r in rows2] if cols_primary[:width] == cols2[:width] else None
+            else:
+                rows2 = None
+        if rows2 is None:
+            return False
+        return model.compare(m, rows2) is None
+    except Exception:
+        return False
+
+
 def sql_shape(sql):
     """Observation of the emitted SQL's structure (which internal decisions this execution exercised)."""
     u = sql.upper()
@@ -241,6 +274,13 @@ def run_case(w, prog, db, dbname, dialect, src=None, want_rq=True, user_names=No
         aligned, rows = True, prefix_rows
     if aligned:
         d = model.compare(m, rows)
+        if d and second_engine_agrees(o.sql, db, m, rows, o.cols):
+            # the pinned SQLite (3.49.1) and the model disagree, but another SQLite version executing the SAME
+            # statement agrees with the model: the statement is right and the pinned engine is at fault (seen:
+            # GROUP BY k ORDER BY k over a sub-query that is ordered DESC with a LIMIT comes back in the
+            # sub-query's order on 3.49.1, correctly on 3.40.1).  Counted, not a violation of the compiler.
+            o.obs["engine_disagreement"] = True
+            d = None
         if d:
             prop = "C03" if d[0] == "order_diff" else "C01"
             sym = d[0]
@@ -548,6 +588,8 @@ def explore_shard(prop, seed, shard, n_cases, profile, dialects=("sqlite", "gene
                     obs["by_ctes"][str(nc)] = obs["by_ctes"].get(str(nc), 0) + 1
                 if st == "judged" and o.model is not None:
                     sh = o.obs["shape"]
+                    if o.obs.get("engine_disagreement"):
+                        obs["engine_disagreements_resolved_by_second_sqlite"] = obs.get("engine_disagreements_resolved_by_second_sqlite", 0) + 1
                     if o.obs.get("ordered"):
                         obs["ordered_results"] = obs.get("ordered_results", 0) + 1
                     if o.obs.get("partially_ordered"):
